@@ -15,10 +15,13 @@ structure Cfg where
   closable : List Nat := []
   progs : List (List Nat) := []
   sig : List (Nat × Option Nat) := []   -- (handler sender, victim: none = loop thread)
+  eintr : Nat := 0      -- how many EINTR answers the environment may give in one run
+  cap : Option Nat := none   -- eventfd counter saturates at this value (none = 2^64-2)
 
 structure DS where
   s : State
   k : List Nat    -- per sender: index of its next send
+  ei : Nat := 0   -- EINTR answers left
 
 structure D where
   cfg : Cfg := {}
@@ -39,10 +42,14 @@ def parseCfg (ws : List String) : Cfg :=
     | ["nh", v] => { c with nh := nat! v }
     | ["close", v] => { c with closable := natList v }
     | ["senders", v] => { c with progs := if v = "-" then [] else (v.splitOn ";").map natList }
+    | ["eintr", v] => { c with eintr := nat! v }
+    | ["cap", v] => { c with cap := if v = "-" then none else some (nat! v) }
     | ["sig", v] => { c with sig := if v = "-" then [] else (v.splitOn ",").map parseSig }
     | _ => c) {}
 
-def initDS (c : Cfg) : DS := { s := init c.nh c.progs.length, k := c.progs.map fun _ => 0 }
+def initDS (c : Cfg) : DS :=
+  { s := match c.cap with | none => init c.nh c.progs.length | some n => init c.nh c.progs.length (n - 1),
+    k := c.progs.map fun _ => 0, ei := c.eintr }
 
 def spcName : SPc → String
   | .idle => "idle" | .load => "load" | .inc => "inc" | .xchg => "xchg" | .write => "write" | .dec => "dec"
@@ -70,6 +77,8 @@ def enabledToks (c : Cfg) (d : DS) : List String :=
     (if x.pc = .idle then d.k.getD t 0 < (c.progs.getD t []).length else true) && !interrupted c d (some t)
   let lok := !interrupted c d none
   snds.map (fun t => s!"s{t}")
+    ++ ((snds.filter fun t => d.ei > 0 && enabled s (.eintr (some t))).map fun t => s!"e{t}")
+    ++ (if lok && d.ei > 0 && enabled s (.eintr none) then ["i"] else [])
     ++ (if lok && enabled s .loop then ["l"] else [])
     ++ ((c.closable.filter fun h => lok && enabled s (.close h)).map fun h => s!"c{h}")
     ++ (if lok && enabled s .closeCbs && (List.range s.nh).any (fun h => (s.hs h).unlinked && !(s.hs h).freed) then ["f"] else [])
@@ -85,7 +94,7 @@ def stateStr (c : Cfg) (d : DS) : String :=
     let x := s.snd[t]?.getD ({} : Sender)
     s!"t{t}:{spcName x.pc},h{x.h},k{d.k.getD t 0},q{x.seq}"
   s!"efd={s.efd} lpc={lpcName s.lpc} q={listStr s.queue} hl={listStr s.handles} | "
-    ++ " ".intercalate hs ++ " | " ++ " ".intercalate ts ++ " | en=" ++ ",".intercalate (enabledToks c d)
+    ++ " ".intercalate hs ++ " | " ++ " ".intercalate ts ++ s!" | ei={d.ei} en=" ++ ",".intercalate (enabledToks c d)
 
 /-- apply one token; returns the effect text -/
 def applyTok (c : Cfg) (d : DS) (tok : String) : Option (DS × String) :=
@@ -101,6 +110,10 @@ def applyTok (c : Cfg) (d : DS) (tok : String) : Option (DS × String) :=
       | .closeStore h _ => s!"store h{h}"
       | .closeSpin h _ => s!"spin h{h} unlink"
     (step? s .loop).map fun s' => ({ d with s := s' }, eff)
+  else if tok = "i" then
+    (step? s (.eintr none)).map fun s' => ({ d with s := s', ei := d.ei - 1 }, "drain EINTR")
+  else if tok.startsWith "e" then
+    (step? s (.eintr (some arg))).map fun s' => ({ d with s := s', ei := d.ei - 1 }, "write EINTR")
   else if tok = "f" then
     let done := (List.range s.nh).filter fun h => (s.hs h).unlinked && !(s.hs h).freed
     (step? s .closeCbs).map fun s' => ({ d with s := s' }, "closecb " ++ " ".intercalate (done.map fun h => s!"h{h}"))
@@ -122,7 +135,7 @@ def applyTok (c : Cfg) (d : DS) (tok : String) : Option (DS × String) :=
         | .load => if hv.pending ≠ 0 then "load=1 ret" else "load=0"
         | .inc => "inc"
         | .xchg => s!"xchg={hv.pending}"
-        | .write => "write"
+        | .write => if s.efd ≤ s.capm1 then "write" else "write EAGAIN"
         | .dec => "dec ret"
         | .idle => ""
       (step? s (.snd t)).map fun s' => ({ d with s := s' }, eff)
